@@ -6,11 +6,16 @@ package main
 // (thorough) runs the dump a second time in a fresh process and diffs (nondeterminism guard).
 
 import (
+	"bytes"
 	"encoding/json"
 	"fmt"
+	"math"
 	"path/filepath"
 	"runtime"
+	"sync"
+	"time"
 
+	"github.com/brutella/hc/accessory"
 	"github.com/brutella/hc/characteristic"
 	"github.com/brutella/hc/service"
 
@@ -51,6 +56,8 @@ func checkC15(c *Ctx) {
 	c.Assume("the tables of HcModel/Generated/Catalog.lean are produced by harness/internal/catalog from the same working tree (trusted translator)")
 	corpusC15(c)
 	c15Usable(c)
+	c15RangedCtors(c)
+	c15ConcurrentCtors(c)
 	s, d := catalogOf(c)
 	n := map[string]int{}
 	for _, r := range d.Rows {
@@ -235,4 +242,125 @@ func c15Usable(c *Ctx) {
 		}
 		c.Count(id, true, "stream:usable", "usable:"+cc.Wrapper)
 	}
+}
+
+// c15RangedCtors: the accessory constructors that take a value and a range (thermometer, thermostat): whatever the
+// arguments — rooms below zero, ranges outside the metadata's default range, values outside the given range — the object
+// is usable: the value is the given one when it lies inside the given range and the nearest bound otherwise; and the
+// constructors are safe to call from several goroutines at once (each call builds its own object).
+func c15RangedCtors(c *Ctx) {
+	vals := []float64{-273.15, -90, -20, -5, -0.5, 0, 0.1, 1, 8, 10, 25.5, 30, 38, 50, 60, 80, 100, 120, 200, 1e6}
+	for i := 0; i < c.Pick(200, 4000); i++ {
+		id := c.CaseID("ranged-ctors", i)
+		if c.Skip(id) {
+			continue
+		}
+		r := c.CaseRng("ranged-ctors", i)
+		a, b, temp := vals[r.Intn(len(vals))], vals[r.Intn(len(vals))], vals[r.Intn(len(vals))]
+		if a > b {
+			a, b = b, a
+		}
+		want := math.Min(math.Max(temp, a), b)
+		var got []float64
+		name := "NewTemperatureSensor"
+		if i%2 == 0 {
+			name = "NewThermostat"
+			t := accessory.NewThermostat(accessory.Info{Name: "T"}, temp, a, b, 0.5)
+			got = []float64{t.Thermostat.CurrentTemperature.GetValue(), t.Thermostat.TargetTemperature.GetValue()}
+		} else {
+			t := accessory.NewTemperatureSensor(accessory.Info{Name: "T"}, temp, a, b, 0.5)
+			got = []float64{t.TempSensor.CurrentTemperature.GetValue()}
+		}
+		for _, g := range got {
+			if g != want {
+				c.Violate("an accessory constructor that takes a value and a range returns an object with another value (not the given one, although it lies inside the given range, or one outside the range)", id,
+					fmt.Sprintf("accessory.%s(info, %v, %v, %v, 0.5)", name, temp, a, b), fmt.Sprint(want), fmt.Sprint(g))
+				break
+			}
+		}
+		c.Count(fmt.Sprint(name, temp, a, b), true, "stream:ranged-ctors")
+	}
+}
+
+// c15ConcurrentCtors: constructors called from several goroutines at the same time (an application that builds its
+// accessories in parallel, or one that builds a new accessory while the running ones update their values): every object is
+// what the constructor yields when it is called alone.
+func c15ConcurrentCtors(c *Ctx) {
+	id := "concurrent-ctors#0"
+	if c.Skip(id) {
+		return
+	}
+	type mk struct {
+		name string
+		fn   func() *characteristic.Characteristic
+	}
+	mks := []mk{
+		{"NewSetupEndpoints", func() *characteristic.Characteristic { return characteristic.NewSetupEndpoints().Characteristic }},
+		{"NewSupportedVideoStreamConfiguration", func() *characteristic.Characteristic { return characteristic.NewSupportedVideoStreamConfiguration().Characteristic }},
+		{"NewSelectedRTPStreamConfiguration", func() *characteristic.Characteristic { return characteristic.NewSelectedRTPStreamConfiguration().Characteristic }},
+		{"NewName", func() *characteristic.Characteristic { return characteristic.NewName().Characteristic }},
+		{"NewBrightness", func() *characteristic.Characteristic { return characteristic.NewBrightness().Characteristic }},
+	}
+	alone := map[string]string{}
+	for _, m := range mks {
+		alone[m.name] = fmt.Sprintf("%T %v", m.fn().Value, m.fn().Value)
+	}
+	stop := make(chan struct{})
+	var wg sync.WaitGroup
+	var mu sync.Mutex
+	bad := ""
+	// meanwhile: a running camera keeps setting tlv8 values of its own
+	for g := 0; g < 4; g++ {
+		wg.Add(1)
+		go func(g int) {
+			defer wg.Done()
+			busy := characteristic.NewSupportedAudioStreamConfiguration()
+			payload := bytes.Repeat([]byte{byte(0xA0 + g)}, 300+g*37)
+			for {
+				select {
+				case <-stop:
+					return
+				default:
+				}
+				if msg, pan := safely(func() { busy.SetValue(payload) }); pan {
+					mu.Lock()
+					if bad == "" {
+						bad = "SetValue of a tlv8 characteristic panics: " + trunc(msg, 120)
+					}
+					mu.Unlock()
+					return
+				}
+			}
+		}(g)
+	}
+	for g := 0; g < 6; g++ {
+		wg.Add(1)
+		go func(g int) {
+			defer wg.Done()
+			for k := 0; k < 4000; k++ {
+				m := mks[(g+k)%len(mks)]
+				var got string
+				msg, pan := safely(func() { v := m.fn().Value; got = fmt.Sprintf("%T %v", v, v) })
+				if pan {
+					got = "panic: " + msg
+				}
+				if got != alone[m.name] {
+					mu.Lock()
+					if bad == "" {
+						bad = fmt.Sprintf("characteristic.%s(): %s (alone: %s)", m.name, trunc(got, 120), trunc(alone[m.name], 60))
+					}
+					mu.Unlock()
+					return
+				}
+			}
+		}(g)
+	}
+	time.Sleep(300 * time.Millisecond)
+	close(stop)
+	wg.Wait()
+	if bad != "" {
+		c.Violate("a constructor called while other goroutines build or update characteristics does not return the object it returns when called alone", id,
+			map[string]interface{}{"goroutines_calling_constructors": 6, "goroutines_setting_tlv8_values": 4}, "the constructor's default", bad)
+	}
+	c.Count(id, true, "stream:concurrent-ctors")
 }
